@@ -118,6 +118,11 @@ add(tup([vec(L["u8"]),L["u32"]]),"tuple",True)
 add(tup([bmap(L["u8"],L["u8"]),L["bool"]]),"tuple",False)
 add(tup([llist(L["u16"]),L["String"],L["u8"]]),"tuple",False)
 
+# elements that are large in memory (a small claimed count is already a lot of bytes)
+big_el=[arr(L["u8"],4096), arr(L["u32"],1000), tup([L["u64"],arr(L["u32"],100),option(L["u8"])])]
+for t in big_el:
+    add(vec(t),"bigelem",False); add(deque(t),"bigelem",False); add(option(vec(t)),"bigelem",False); add(bmap(L["u8"],t),"bigelem",False)
+
 # deep chains
 def chain(fs, leaf):
     t=leaf
